@@ -186,6 +186,75 @@ def describe_row(r):
             'rule': r['crit'][0] if r['crit'] else None}
 
 
+PURE_BUILTINS = {'len', 'struct.calcsize', 'struct.pack', 'bytes', 'bytearray', 'int', 'str', 'min', 'max', 'abs', 'sum', 'list', 'tuple', 'ord', 'chr', 'bool'}
+BUILTIN_METHODS = {'encode', 'decode', 'to_bytes', 'lower', 'upper', 'strip', 'lstrip', 'rstrip', 'join', 'split', 'hex', 'format', 'items', 'keys', 'values', 'ljust', 'rjust', 'zfill'}
+STRUCTURAL = {'var', 'at', 'bin', 'un', 'cmp', 'bool', 'ifexp', 'mul', 'tablesize', 'accum', 'comp', 'list', 'tuple', 'star', 'size-of-list', 'item', 'lv', 'havoc', 'const',
+              'slice', 'res', 'sym'}
+
+
+def opaque_atoms(facts, lin):
+    """Sub-terms of a linear form that the size algebra did not see through.  A difference is a disproof only when every term in
+    it is understood: constants, fields of the item, pure builtins / builtin methods over those, constructed objects with such
+    arguments.  Anything else (a call of a repository function or method that was not followed, an unresolved module-level name,
+    a subscript of something that is not a constant table, the size of an object of unknown construction) is listed here."""
+    methods = set()
+    for ci in facts.classes.values():
+        methods.update(ci.methods)
+    out = []
+
+    def walk(t):
+        if not isinstance(t, tuple) or not t or not isinstance(t[0], str):
+            for x in (t if isinstance(t, tuple) else ()):
+                walk(x)
+            return
+        k = t[0]
+        if k == 'const':
+            return
+        if k == 'attr' and len(t) == 3:
+            walk(t[1])
+            return
+        if k == 'call' and len(t) == 4 and isinstance(t[1], str):
+            if t[1] not in PURE_BUILTINS:
+                out.append(t)
+                return
+        elif k == 'mcall' and len(t) >= 4:
+            if t[2] in methods or t[2] not in BUILTIN_METHODS:
+                out.append(t)
+                return
+        elif k == 'size' and len(t) == 2:
+            if not (isinstance(t[1], tuple) and t[1] and t[1][0] in ('item', 'attr', 'new', 'obj', 'lv')):
+                out.append(t)
+                return
+        elif k == 'new':
+            pass
+        elif k == 'name':
+            # a module-level name that was not resolved to a constant (comprehension variables are names too: those are fine)
+            if len(t) == 2 and isinstance(t[1], str) and (t[1] in facts.assign_nodes or t[1] in facts.funcs):
+                out.append(t)
+            return
+        elif k == 'sub':
+            base = t[1]
+            if not (base[0] in ('const', 'dict', 'list', 'tuple', 'attr', 'item', 'lv')):
+                out.append(t)
+                return
+        elif k in ('dict',):
+            pass
+        elif k not in STRUCTURAL:
+            out.append(t)
+            return
+        if k in ('call', 'new') and len(t) == 4:
+            kids = list(t[2]) + [v for _, v in t[3]]
+        elif k == 'mcall' and len(t) >= 4:
+            kids = [t[1]] + list(t[3]) + [v for _, v in (t[4] if len(t) > 4 else ())]
+        else:
+            kids = [x for x in t[1:] if isinstance(x, tuple)]
+        for x in kids:
+            walk(x)
+    for key in lin.terms:
+        walk(key)
+    return out
+
+
 def check_conservation(report, pa, rule, expect_label_writes):
     """L2 / L3 for one pass: bytes in == bytes out + label delta; position advances by bytes out; label shifts are applied to
     all labels strictly after the item start."""
@@ -200,6 +269,11 @@ def check_conservation(report, pa, rule, expect_label_writes):
         total = r['appended'] + r['delta']
         if not (total - r['consumed']).is_zero():
             where = r['updates'][0][0]['node'] if r['updates'] else node
+            hidden = opaque_atoms(pa.facts, total - r['consumed'])
+            if hidden:
+                # a difference made of terms the size algebra does not see through is no disproof
+                raise AnalysisError('{}: on the path [{}] the bytes an item contributes ({}) and the bytes emitted ({}) are not comparable: {} is not followed'.format(
+                    fname, path.cond_text()[-100:], r['consumed'], r['appended'], show(hidden[0])[:100]))
             report.fail(Finding(rule + '.conserve', fname, where,
                                 'on the path [{}] the item contributes {} bytes to the label table but {} bytes are emitted and later '
                                 'labels move by {}: labels after it no longer equal the byte offset'.format(
@@ -324,14 +398,22 @@ def class_flow(facts, compress):
             if not cands:
                 continue
             for val, n in r['app_values']:
-                if val == pa.item:
-                    out |= cands
-                elif val[0] == 'new':
-                    out.add(val[1])
-                elif val[0] == 'mcall' and val[2] == '__class__':
-                    out |= cands
-                else:
-                    out |= cands
+                if val != pa.item and val[0] != 'new':
+                    val = sz.resolve(val, path)
+                todo = [val]
+                while todo:
+                    val = todo.pop()
+                    if val == pa.item:
+                        out |= cands
+                    elif val[0] == 'new':
+                        out.add(val[1])
+                    elif val[0] == 'mcall' and val[2] == '__class__':
+                        out |= cands
+                    elif val[0] == 'ifexp':
+                        todo.extend([val[2], val[3]])
+                    else:
+                        raise AnalysisError('{}: the class of the item appended at line {} ({}) is not established'.format(
+                            name, getattr(n, 'lineno', '?'), show(val)[:80]))
         steps.append((name, node, set(classes), set(out)))
         classes = out
     return steps
